@@ -4,7 +4,11 @@ package sctp
 // identifiers of pion/sctp; all reads happen in the driver at quiescent points
 // (no task is running), so no lock is taken.
 
-import "sync/atomic"
+import (
+	"fmt"
+	"math/bits"
+	"sync/atomic"
+)
 
 func accBufferedAmount(a *Association) int {
 	return a.pendingQueue.getNumBytes() + a.inflightQueue.getNumBytes()
@@ -262,3 +266,49 @@ func accInflightActual(a *Association) int {
 func accStreamRegistered(a *Association, s *Stream) bool {
 	return a.streams[s.streamIdentifier] == s
 }
+
+// accReceiveWindowSanity checks the received-TSN tracker against itself: the count equals the bits
+// set, and nothing is tracked beyond the window above the cumulative TSN.
+func accReceiveWindowSanity(a *Association) string {
+	q := a.payloadQueue
+	n := 0
+	for _, wd := range q.tsnBitmask {
+		n += bits.OnesCount64(wd)
+	}
+	if n != q.chunkSize {
+		return fmt.Sprintf("the received-TSN tracker counts %d chunks but %d bits are set (cum=%d tail=%d)", q.chunkSize, n, q.cumulativeTSN, q.tailTSN)
+	}
+	if q.chunkSize < 0 {
+		return fmt.Sprintf("negative chunk count %d in the received-TSN tracker", q.chunkSize)
+	}
+	if q.chunkSize > 0 && (sna32LT(q.tailTSN, q.cumulativeTSN) || sna32GT(q.tailTSN, q.cumulativeTSN+q.maxTSNOffset)) {
+		return fmt.Sprintf("the highest tracked TSN %d is outside the window (cum=%d, window %d)", q.tailTSN, q.cumulativeTSN, q.maxTSNOffset)
+	}
+	return ""
+}
+
+// accReassemblySanity: per stream, the queued-byte counter equals the bytes reachable from the queues.
+func accReassemblySanity(a *Association) string {
+	for sid, s := range a.streams {
+		if c, t := accReasmCounter(s), accReasmTrueBytes(s); c != t {
+			return fmt.Sprintf("stream %d: the reassembly byte counter is %d but %d bytes are queued", sid, c, t)
+		}
+	}
+	return ""
+}
+
+// accAdversaryView: what an omniscient adversary reads before forging a packet for a.
+func accAdversaryView(a *Association) (recvCum, ackPoint, nextTSN uint32, interleaving bool) {
+	return a.peerLastTSN(), a.cumulativeTSNAckPoint, a.myNextTSN, a.localInterleaving && a.peerInterleaving
+}
+
+// accTSNTracked: is this TSN recorded as received above the cumulative point?
+func accTSNTracked(a *Association, tsn uint32) bool { return a.payloadQueue.hasChunk(tsn) }
+
+// accTSNTrackedOrBelow: recorded as received, or already covered by the cumulative point.
+func accTSNTrackedOrBelow(a *Association, tsn uint32) bool {
+	return a.payloadQueue.hasChunk(tsn) || sna32LTE(tsn, a.payloadQueue.getcumulativeTSN())
+}
+
+// accLastTSNReceived: the highest TSN recorded as received.
+func accLastTSNReceived(a *Association) (uint32, bool) { return a.payloadQueue.getLastTSNReceived() }
